@@ -28,6 +28,7 @@ release it; independent of timing), or stands still for four alarms.
 import os, sys, json, time, mmap, struct, signal, select, threading, traceback, sqlite3
 from vf import core
 from vf.seams import dbapi
+from vf.props import _c36_fake as fake       # imported before the first fork (no per-history compile under -B)
 
 LEVEL = 'model_checking'
 
@@ -280,7 +281,6 @@ def descendant(dbs, case, paths, level, fds):
 def history(case, path):
     """runs in process P; returns the report of P (with C's report inside)"""
     from pony import orm
-    from vf.props import _c36_fake as fake
     import gc; gc.disable()
     global SEQ
     SEQ = mmap.mmap(-1, 8)                       # anonymous + shared: one counter for the whole process tree
